@@ -433,15 +433,21 @@ def wrap_accumulator(cls, al, extra_invalidating=()):
 
 def _tampered(kind, el):
     """white-box tests change private attributes; the kind derived from the constructor is then stale"""
-    try:
-        if kind["t"] == "VMC":
-            return bool(el._corrected) != kind["corr"] or bool(el._pass_on_empty) != kind["poe"]
-        if kind["t"] == "Mean":
-            return bool(el._pass_on_empty) != kind["poe"] or el._sum_seq is not None
-        if kind["t"] == "Store":
-            return bool(el._yield_as_a_group) != kind["grp"]
-    except AttributeError:
-        return False
+    missing = object()
+    want = {"VMC": ("_corrected", "_pass_on_empty"), "Mean": ("_pass_on_empty", "_sum_seq"),
+            "Store": ("_yield_as_a_group",)}.get(kind["t"], ())
+    got = dict((a, getattr(el, a, missing)) for a in want)
+    if any(v is missing for v in got.values()):
+        # this version of lena keeps that state elsewhere: tampering cannot be excluded, the instance is left out
+        # (reduced coverage, counted under "skipped")
+        skip("acc:%s:private-state-not-observable" % kind["t"])
+        return True
+    if kind["t"] == "VMC":
+        return bool(got["_corrected"]) != kind["corr"] or bool(got["_pass_on_empty"]) != kind["poe"]
+    if kind["t"] == "Mean":
+        return bool(got["_pass_on_empty"]) != kind["poe"] or got["_sum_seq"] is not None
+    if kind["t"] == "Store":
+        return bool(got["_yield_as_a_group"]) != kind["grp"]
     return False
 
 
